@@ -5,8 +5,8 @@ Import ListNotations.
 
 (** ** reflection: the finite domains as lists, membership proved structurally (component by component),
     statements over all configurations / variants decided by ONE vm_compute each and lifted with forallb_forall *)
-Lemma in_all_src s : In s all_src. Proof. destruct s; cbn; auto. Qed.
-Lemma in_all_tr t : In t all_tr. Proof. destruct t; cbn; auto 6. Qed.
+Lemma in_all_src s : In s all_src. Proof. destruct s; cbn; auto 7. Qed.
+Lemma in_all_tr t : In t all_tr. Proof. destruct t; cbn; auto 8. Qed.
 Lemma in_all_snk k : In k all_snk. Proof. destruct k; cbn; auto. Qed.
 Lemma in_all_trig g : In g all_trig. Proof. destruct g; cbn; auto. Qed.
 Lemma in_all_jt j : In j all_jt. Proof. destruct j; cbn; auto. Qed.
@@ -34,7 +34,7 @@ Proof.
 Qed.
 
 (** the lattice of the driver: kill only with the slow source *)
-Lemma in_all_cfgs (c : cfg) : (c_kill c = true -> c_src c = SSlow) -> In c all_cfgs.
+Lemma in_all_cfgs (c : cfg) : (c_kill c = true -> killable (c_src c) = true) -> In c all_cfgs.
 Proof.
   destruct c as [s t k g j h kl]. cbn [c_kill c_src]. intros Hk. unfold all_cfgs.
   apply in_flat_map. exists s. split; [apply in_all_src|].
@@ -44,7 +44,7 @@ Proof.
   apply in_flat_map. exists j. split; [apply in_all_jt|].
   apply in_flat_map. exists h. split; [apply in_all_h|].
   apply in_map_iff. exists kl. split; [reflexivity|].
-  destruct kl; [rewrite (Hk eq_refl); cbn; auto | destruct s; cbn; auto].
+  destruct kl; [rewrite (Hk eq_refl); cbn; auto | destruct (killable s); cbn; auto].
 Qed.
 
 Definition all_jv : list jvariant :=
@@ -79,7 +79,7 @@ Proof. revert c. apply all_cfg_bool. vm_compute. reflexivity. Qed.
 Lemma lattice_fixed : forallb (fun c => good_out (run_job jfixed c)) all_cfgs = true.
 Proof. vm_compute. reflexivity. Qed.
 
-Lemma lattice_size : length all_cfgs = 1440.
+Lemma lattice_size : length all_cfgs = 3456.
 Proof. vm_compute. reflexivity. Qed.
 
 Lemma run_accepted v c : o_accepted (run_job v c) = accepted v c.
@@ -164,5 +164,5 @@ Proof. split; [solve_in|]. vm_compute. reflexivity. Qed.
 
 Lemma racy_fixed c : racy jfixed c = false.
 Proof. reflexivity. Qed.
-Lemma racy_current_count : length (filter (racy jcurrent) all_cfgs) = 45.
+Lemma racy_current_count : length (filter (racy jcurrent) all_cfgs) = 75.
 Proof. vm_compute. reflexivity. Qed.
